@@ -376,6 +376,9 @@ func genC18(o *hx.Out, tier string) {
 		// include graph: root, 0..2 direct includes, possibly a common file included by several (diamond)
 		rootAddr := fmt.Sprintf("c18_Pk%d.xml", pi)
 		nin := r.Intn(3)
+		if pi == 0 && nin == 0 {
+			nin = 1 // package 0: a root that states version 0 over an include with a version of its own
+		}
 		var files []xFile
 		common := ""
 		if nin == 2 && r.Intn(2) == 0 {
@@ -383,8 +386,10 @@ func genC18(o *hx.Out, tier string) {
 		}
 		mk := func(addr string, includes []string) xFile {
 			f := xFile{addr: addr, includes: includes}
-			switch r.Intn(4) {
-			case 0:
+			switch r.Intn(6) {
+			case 0: // no <version> element: the includes decide
+			case 1: // an explicit version 0 is a version (it overrides the includes)
+				f.version = "0"
 			default:
 				f.version = strconv.Itoa(1 + r.Intn(200))
 			}
@@ -421,6 +426,10 @@ func genC18(o *hx.Out, tier string) {
 			incs = append(incs, common)
 		}
 		rf := mk(rootAddr, incs)
+		if pi == 0 {
+			rf.version = "0"
+			files[len(files)-1].version = strconv.Itoa(1 + r.Intn(200))
+		}
 		all = append(all, rf.enums...)
 		for j := 0; j < 2+r.Intn(6); j++ {
 			rf.msgs = append(rf.msgs, g.msg(all))
